@@ -803,3 +803,64 @@ def local_updates(func, ex, named_only=True):
             e = strip_tags(ex.call(t))
             out.append((nm or "_%d" % t["dest"]["l"], bi, e, erase_vars(e, nm)))
     return out
+
+
+# ---------------------------------------------------------------- sibling effect profiles
+def effect_profile(func, ex=None, skip=None, mutating_only=True, debug_guard=re.compile(r"env_cache::|debug|verbos")):
+    """multiset of (guard signature, effect) for every source-level call and named-local update in a body.
+    Guards and effects have local names erased, macro expansions (logging) are ignored; two siblings that are
+    meant to run the same algorithm must have equal profiles (cross-check rule)."""
+    from collections import Counter
+    from expr import strip_tags, fmt as _fmt
+    ex = ex or Exprs(func)
+    prof = Counter()
+    names = func.local_names()
+
+    def guard_sig(bi):
+        gs = []
+        for e, how, vals, sb in dominating_conds(func, bi, ex):
+            if func.blocks[sb]["term"]["sp"].get("exp"):
+                continue
+            s = _fmt(erase_vars(strip_tags(e)))
+            if s.startswith("discr("):
+                continue            # enum discriminants of iterator/Option plumbing
+            tv = cond_bool(how, vals)
+            gs.append((s, tv if tv is not None else (how, tuple(vals))))
+        return tuple(sorted(set(gs), key=repr))
+    for bi, b in enumerate(func.blocks):
+        if b["cleanup"]:
+            continue
+        g = None
+        for s in b["stmts"]:
+            if s["k"] == "assign" and not s["pl"]["p"] and names.get(s["pl"]["l"]) and not s["sp"].get("exp"):
+                g = g if g is not None else guard_sig(bi)
+                if any(debug_guard.search(c0) for c0, _ in g):
+                    continue
+                prof[(g, "set " + _fmt(erase_vars(strip_tags(ex.rvalue(s["rv"])), names[s["pl"]["l"]])))] += 1
+        t = b["term"]
+        if t["k"] == "call" and not t["sp"].get("exp") and not t.get("indirect"):
+            c = t["callee"]
+            if skip and skip.search(c):
+                continue
+            if mutating_only:
+                mut = False
+                for a in t["args"]:
+                    if a["k"] in ("copy", "move") and func.locals[a["pl"]["l"]]["ty"].startswith("&mut") and not a["pl"]["p"]:
+                        mut = True
+                if not mut:
+                    continue
+            g = g if g is not None else guard_sig(bi)
+            if any(debug_guard.search(c0) for c0, _ in g):
+                continue
+            prof[(g, "call " + _fmt(erase_vars(strip_tags(ex.call(t)))))] += 1
+    return prof
+
+
+def profile_diff(pa, pb):
+    """entries present in one profile and not the other, as printable strings"""
+    out = []
+    for k in sorted(set(pa) | set(pb), key=repr):
+        if pa.get(k, 0) != pb.get(k, 0):
+            g, eff = k
+            out.append("%s x%d/x%d under %s" % (eff[:120], pa.get(k, 0), pb.get(k, 0), [("%s=%s" % (c[:60], v)) for c, v in g][-3:]))
+    return out
